@@ -58,6 +58,23 @@ fn real_main(args: Vec<String>) -> i32 {
 			props::c06::debug(&args[2]);
 			0
 		}
+		"membench" => {
+			// development aid: resident memory after n runs of the reference interpreter / of jrsonnet on one program
+			let n: usize = args.get(3).and_then(|s| s.parse().ok()).unwrap_or(2000);
+			let rss = || std::fs::read_to_string("/proc/self/statm").ok().and_then(|s| s.split_whitespace().nth(1).and_then(|x| x.parse::<u64>().ok())).unwrap_or(0) * 4 / 1024;
+			let e = ast::parse_to_ex(&args[2]).expect("program");
+			let r0 = rss();
+			for _ in 0..n {
+				let it = model::Interp::new(300_000);
+				let _ = model::run_expr(&e, &it);
+			}
+			let r1 = rss();
+			for _ in 0..n {
+				let _ = jr::eval(&args[2], &jr::Opts::default());
+			}
+			println!("rss MiB: start {r0}, after {n} model runs {r1}, after {n} jrsonnet runs {}", rss());
+			0
+		}
 		"eval" => {
 			println!("{}", jr::eval_default(&args[2]).short());
 			0
